@@ -3,6 +3,7 @@
    translate/effects2v.py on every run (coq/Gen/Effects.v). *)
 From Coq Require Import List String NArith.
 Require Import EoNV.Model.Effects EoNV.Proofs.EffectsP.
+Require Import EoNV.Proofs.EffectsSound EoNV.Proofs.EffectsSound2 EoNV.Proofs.EffectsSoundEx.
 Require Import EoNV.Gen.Effects EoNV.Gen.EffectsObligAll.
 Import ListNotations.
 
@@ -14,62 +15,180 @@ Theorem C19_all_entry_points_safe_except_confirmed_defects :
   forallb (ok_entry eon_program) (entry_points eon_program) = true.
 Proof. exact all_entry_points_ok. Qed.
 
-(* Soundness of the checker.  FULL STATEMENT (kept here; only partly mechanised):
-     forall fd n0 st o st', safe eon_program fd = true -> initial fd n0 st ->
-       exec eon_program (fn_body fd) st o st' ->
-       forall l, In l (st_log st') -> n0 <= l
-   i.e. in EVERY execution (and every prefix: [ex_abort]) from EVERY initial heap no
-   object, and no buffer of an object, that existed before the call is written.
-   Proved below (hence the names _partial): under the abstraction invariant
-   (every variable bound to an existing location described by its abstract value;
-   a new object sharing an old buffer comes from a site with non-empty taint)
-   (a) an executed SWrite that the checker does not report logs a new location,
-   (b) the invariant is monotone in the abstract environment (joins at branches and
-       loop heads) and preserved by aliasing assignments.
-   MISSING: preservation of the invariant by ELoad/EReach/EAlloc (needs the heap
-   invariant: references of new objects are covered by the abstract heap, old objects
-   only reference old objects), by SCall (induction on the depth fuel) and by SLoop
-   (induction on the execution); the checker was designed for that proof (post-fixpoint
-   and closure are CHECKED, not assumed) but it is not written. *)
-Theorem C19_safe_sound_partial_write_step :
-  forall p H d n0 ln x f ys E E' st o st',
-  chk p H (S d) (SWrite ln x f ys) E = Some (E', []) ->
-  inv_env n0 (st_heap st) (st_env st) E -> inv_bt n0 H (st_heap st) ->
-  (forall m, In m (st_log st) -> (n0 <= m)%nat) ->
-  exec p (SWrite ln x f ys) st o st' ->
-  forall m, In m (st_log st') -> (n0 <= m)%nat.
-Proof. exact exec_write_logs_new. Qed.
+(* Soundness of the checker, for EVERY program of the statement language: if [safe]
+   accepts fd then in every execution of fd's body in the abstract heap semantics
+   (Model/Effects.v, [exec]) -- and in every prefix of one, because any statement
+   may stop ([ex_abort]) -- from every initial state (parameters bound to objects that
+   exist, allocation pointer n0), every location logged by an SWrite (the owner of
+   the written buffer) was allocated during the call.  No object, and no buffer of an
+   object, that existed before the call is written.
+   Proof (Proofs/EffectsSound.v, EffectsSound2.v): an abstraction invariant [Inv]
+   (every variable is bound to an existing location described by its abstract value;
+   every reference of an object created during the call is recorded in the abstract
+   heap under its allocation site and field; an object that existed before holds
+   objects of the regions it lies in, or what [po] records; a new object sharing an
+   old buffer comes from a site whose taint names a parameter owning that buffer) is
+   preserved by EVar/ELoad/EReach/EAlloc/EChoice ([eval_sound]) and, by induction on
+   the execution, by every statement ([exec_sound]): SIf by soundness of the join,
+   SLoop because the checker re-checks the body AT the invariant it found
+   (post-fixpoint, [loop_inv_spec]), SCall by the check of the inlined callee with the
+   remaining depth fuel. *)
+Theorem C19_safe_sound :
+  forall p fd n0 st o st',
+  safe p fd = true -> initial fd n0 st -> exec p (fn_body fd) st o st' ->
+  forall l, In l (st_log st') -> (n0 <= l)%nat.
+Proof. exact safe_sound. Qed.
 
-Theorem C19_safe_sound_partial_env_monotone :
-  forall n0 h e E F, aenv_leq E F = true -> inv_env n0 h e E -> inv_env n0 h e F.
+(* Attribution (what a non-empty report means), for EVERY program: if the analysis of
+   fd ends with the report v then every logged write to storage that existed before
+   the call hits the buffer of an object that was reachable, when the call started,
+   from a parameter q named by an entry (source line, q) of v.  C19_safe_sound is
+   the case v = [].
+   FINDING (checker, repaired): the checker as first written did NOT have this
+   property -- for  f(a, b): a.append(b); c = a[..]; c[..] = ..  it reported only a
+   although b is modified (C19_semantics_needs_po below is that execution): it assumed
+   that an object that existed before the call only holds objects of its own region
+   even after the function itself had stored into it.  Model/Effects.v now records what
+   may be stored into pre-existing objects, by field ([po], checked as a post-fixpoint by
+   [store_ok] like the rest of the abstract heap) and loads through parameters see it.
+   Verdicts of [safe] are unchanged by the repair (po is empty when nothing
+   pre-existing is written); only reports of functions that do store references into
+   their arguments can grow. *)
+Theorem C19_report_sound :
+  forall p fd n0 st o st' v,
+  analyse p fd = Some v -> initial fd n0 st -> exec p (fn_body fd) st o st' ->
+  forall m, In m (st_log st') -> (m < n0)%nat ->
+  exists ln q l0 l, In (ln, q) v /\ st_env st q = Some l0 /\ reach (st_heap st) l0 l /\
+                    m = base (st_heap st) l.
+Proof. exact analyse_sound. Qed.
+
+(* The generated obligation and soundness together, for the program generated from
+   /repo.  (1) Every public entry point for which no defect is on record
+   ([accepted_unsafe] has no parameter for it) never writes storage that existed
+   before the call, in any execution.  (2) For every public entry point, whatever
+   pre-existing storage it writes is the buffer of an object reachable at entry from a
+   parameter that is on record for it. *)
+Theorem C19_entry_points_do_not_write_caller_storage :
+  forall fd n0 st o st',
+  In fd (entry_points eon_program) -> accepted_params accepted_unsafe (fn_name fd) = [] ->
+  initial fd n0 st -> exec eon_program (fn_body fd) st o st' ->
+  forall l, In l (st_log st') -> (n0 <= l)%nat.
+Proof. exact (fun fd n0 st o st' => entry_points_sound eon_program fd n0 st o st' all_entry_points_ok). Qed.
+
+Theorem C19_entry_points_write_at_most_recorded_parameters :
+  forall fd n0 st o st',
+  In fd (entry_points eon_program) ->
+  initial fd n0 st -> exec eon_program (fn_body fd) st o st' ->
+  forall m, In m (st_log st') -> (m < n0)%nat ->
+  exists q l0 l, In (pname (fn_params fd) q) (accepted_params accepted_unsafe (fn_name fd)) /\
+                 st_env st q = Some l0 /\ reach (st_heap st) l0 l /\ m = base (st_heap st) l.
+Proof. exact (fun fd n0 st o st' => entry_points_sound_attr eon_program fd n0 st o st' all_entry_points_ok). Qed.
+
+(* The invariant-preservation theorem behind it, stated for the checker [chk] under
+   any abstract heap H (the inferred heap is only a candidate that chk verifies). *)
+Theorem C19_invariant_preserved :
+  forall p H n0 R b0 s st o st', exec p s st o st' ->
+  forall d E E' v V, chk p H d s E = Some (E', v) -> incl v V ->
+  Inv n0 R b0 H st E -> log_ok n0 R b0 V st ->
+  log_ok n0 R b0 V st' /\ (o = Normal -> Inv n0 R b0 H st' E' /\ ext (st_heap st) (st_heap st')).
+Proof. exact exec_sound. Qed.
+
+(* Fuel.  The checker never accepts because it ran out of fuel: with no depth fuel it
+   fails, and an accepted call has checked the body of the callee with the remaining
+   fuel (so has every call inside it, down to depth 0 where nothing is accepted). *)
+Theorem C19_out_of_fuel_is_failure : forall p H s E, chk p H 0 s E = None.
+Proof. exact chk_0. Qed.
+Theorem C19_accepted_call_checked_callee :
+  forall p H d x f args E r,
+  chk p H (S d) (SCall x f args) E = Some r ->
+  exists fd E0 E1 v, find_fun p f = Some fd /\
+    bind_params (fn_params fd) (map (alook E) args) = Some E0 /\
+    chk p H d (fn_body fd) E0 = Some (E1, v) /\ r = (aset E x (alook E1 ret_var), v).
+Proof. exact chk_call_inv. Qed.
+
+(* Meaning of the model diagnostic [dead_uses] (reported in the evidence, expected to be
+   empty): where the abstract value of a variable is empty the variable is unbound, so
+   a statement reading it has no execution and the theorems above say nothing about
+   what follows it. *)
+Theorem C19_empty_abstract_value_means_unbound :
+  forall n0 R h e E x, inv_env n0 R h e E -> aisempty (alook E x) = true -> e x = None.
+Proof. exact empty_value_unbound. Qed.
+
+(* Lemmas of the proof that are useful on their own (formerly the _partial theorems). *)
+Theorem C19_write_step :
+  forall n0 R b0 H h e E x l,
+  inv_env n0 R h e E -> inv_bt n0 R b0 H h -> inv_base n0 b0 h ->
+  e x = Some l -> taint H (alook E x) = [] -> (n0 <= base h l)%nat.
+Proof. exact write_safe. Qed.
+
+Theorem C19_env_monotone :
+  forall n0 R h e E F, aenv_leq E F = true -> inv_env n0 R h e E -> inv_env n0 R h e F.
 Proof. exact inv_env_mono. Qed.
 
-Theorem C19_safe_sound_partial_alias :
-  forall n0 h e E x y l, inv_env n0 h e E -> e y = Some l ->
-  inv_env n0 h (upd e x (Some l)) (aset E x (alook E y)).
-Proof. exact assign_var_preserves. Qed.
-
-(* non-vacuity: the program is not empty, the checker does reject a function that
-   writes its parameter, and accepts the rebinding idiom  x = x*A; x.shape = ..  *)
+(* non-vacuity: the program is not empty; the checker rejects a function that
+   writes its parameter, a view of it, an element of a container holding it, and a
+   recursive function (out of fuel), and accepts the rebinding idiom
+   x = x*A; x.shape = .. *)
 Example C19_program_nonvacuous : (60 <= List.length (entry_points eon_program))%nat.
 Proof. vm_compute. repeat constructor. Qed.
 
 Open Scope N_scope.
 Example C19_checker_discriminates :
-  let writes_param := mkfun 1 "f"%string [(1, "a"%string)] true (SWrite 7 1 0 []) in
-  let rebinds_first := mkfun 2 "g"%string [(1, "a"%string)] true
-      (seq [SAssign 1 (EAlloc 5 0 [] [1] [] []); SWrite 8 1 0 []]) in
-  let writes_view := mkfun 3 "h"%string [(1, "a"%string)] true
-      (seq [SAssign 2 (EAlloc 6 0 [] [] [] [1]); SWrite 9 2 0 []]) in
   let writes_element := mkfun 4 "k"%string [(1, "a"%string)] true
       (seq [SAssign 2 (EAlloc 7 0 [1] [] [] []); SAssign 3 (ELoad 2 0); SWrite 10 3 0 []]) in
-  (safe [] writes_param, safe [] rebinds_first, safe [] writes_view, safe [] writes_element)
-  = (false, true, false, false).
+  let recursive := mkfun 5 "r"%string [(1, "a"%string)] true (SCall 2 5 [1]) in
+  (safe [] f_writes_param, safe [] f_rebinds_first, safe [] f_writes_view, safe [] writes_element,
+   safe [recursive] recursive, mutated_params [] f_attr, safe [] f_loop_scalars)
+  = (false, true, false, false, false, Some ["a"; "b"]%string, false).
 Proof. vm_compute. reflexivity. Qed.
 
+(* non-vacuity of the semantics: the hypotheses of C19_safe_sound are satisfiable and
+   its conclusion is falsifiable.  The two rejected functions above have an
+   execution from an initial state that logs the caller's object (location 0 < n0 = 1);
+   the accepted one has a complete execution with a non-empty log. *)
+Example C19_semantics_sees_write_to_parameter :
+  exists st', initial f_writes_param 1%nat st_one /\
+    exec [] (fn_body f_writes_param) st_one Normal st' /\ In 0%nat (st_log st').
+Proof. exact writes_param_logs_old. Qed.
+Example C19_semantics_sees_write_through_view :
+  exists st', initial f_writes_view 1%nat st_one /\
+    exec [] (fn_body f_writes_view) st_one Normal st' /\ In 0%nat (st_log st').
+Proof. exact writes_view_logs_old. Qed.
+Example C19_accepted_function_runs_and_writes :
+  exists st', initial f_rebinds_first 1%nat st_one /\
+    exec [] (fn_body f_rebinds_first) st_one Normal st' /\ st_log st' = [1%nat].
+Proof. exact rebinds_first_runs. Qed.
+
+(* the execution of  f(a, b): a.append(b); c = a[..]; c[..] = ..  that writes b (location
+   1), which is not the buffer of anything reachable from a (location 0) at entry *)
+Example C19_semantics_needs_po :
+  exists st', initial f_attr 2%nat st_ab /\
+    exec [] (fn_body f_attr) st_ab Normal st' /\ In 1%nat (st_log st') /\
+    (forall l, reach (st_heap st_ab) 0%nat l -> base (st_heap st_ab) l <> 1%nat).
+Proof. exact attr_writes_b. Qed.
+
+(* the semantics reaches the body of  for i in range(n): a[i] = 0  (a load may yield a new
+   immutable scalar; the container of numbers holds no references in the model) *)
+Example C19_semantics_reaches_loop_over_scalars :
+  exists st', initial f_loop_scalars 1%nat st_one /\
+    exec [] (fn_body f_loop_scalars) st_one Normal st' /\ In 0%nat (st_log st').
+Proof. exact loop_over_scalars_reaches_body. Qed.
+
 Print Assumptions C19_all_entry_points_safe_except_confirmed_defects.
-Print Assumptions C19_safe_sound_partial_write_step.
-Print Assumptions C19_safe_sound_partial_env_monotone.
-Print Assumptions C19_safe_sound_partial_alias.
+Print Assumptions C19_safe_sound.
+Print Assumptions C19_report_sound.
+Print Assumptions C19_entry_points_do_not_write_caller_storage.
+Print Assumptions C19_entry_points_write_at_most_recorded_parameters.
+Print Assumptions C19_invariant_preserved.
+Print Assumptions C19_out_of_fuel_is_failure.
+Print Assumptions C19_accepted_call_checked_callee.
+Print Assumptions C19_empty_abstract_value_means_unbound.
+Print Assumptions C19_write_step.
+Print Assumptions C19_env_monotone.
 Print Assumptions C19_program_nonvacuous.
 Print Assumptions C19_checker_discriminates.
+Print Assumptions C19_semantics_sees_write_to_parameter.
+Print Assumptions C19_semantics_sees_write_through_view.
+Print Assumptions C19_accepted_function_runs_and_writes.
+Print Assumptions C19_semantics_needs_po.
+Print Assumptions C19_semantics_reaches_loop_over_scalars.
